@@ -43,4 +43,24 @@ func TestEnumerationSize(t *testing.T) {
 		}
 		t.Logf("retry/%s: %s", familyName[fam], p)
 	}
+	for i := 0; i < 4; i++ {
+		p := rejectedProgram(r, "j")
+		if !p.HasRejected {
+			t.Fatal("no rejected calls")
+		}
+		t.Logf("rejected: %s", p)
+	}
+	for i := 0; i < 6; i++ {
+		p := reuseProgram(r, "u")
+		if countReuse(p) == 0 {
+			t.Fatal("no reuse round")
+		}
+		t.Logf("reuse: %s", p)
+		ex := model(p)
+		for h, e := range ex {
+			if !e.Started {
+				t.Fatalf("handler %d never started in %s", h, p)
+			}
+		}
+	}
 }
